@@ -623,7 +623,15 @@ fn boundary_family(cx: &mut Cx) {
     for suf in suffixes {
         for b in [196u8, 176] {
             cx.report.count("bf_suffix");
-            if let Some(s) = roundtrip(cx, &suf, &node(b)) {
+            let r = roundtrip(cx, &suf, &node(b));
+            // BIP-173: an HRP is 1..=83 US-ASCII characters in 33..=126; the entity prefixes are lower case,
+            // so an upper-case letter in the suffix is mixed case. Exactly these HRPs must be accepted.
+            let hrp_len = AddressBech32Encoder::new(&net(&suf)).hrp_set.get_entity_hrp(&EntityType::from_repr(b).unwrap()).len();
+            let expect_ok = hrp_len <= 83 && suf.bytes().all(|c| (33..=126).contains(&c) && !c.is_ascii_uppercase());
+            if r.is_some() != expect_ok {
+                cx.fail(format!("encoder {} the HRP with suffix {:?} (HRP length {}), BIP-173 says the opposite", if r.is_some() { "accepted" } else { "rejected" }, suf, hrp_len), json!({"op":"hrp_acceptance","suffix":suf,"entity":b}));
+            }
+            if let Some(s) = r {
                 cx.report.count("bf_suffix_accepted");
                 // the neighbouring networks must reject it
                 for other in [format!("{}x", suf), if suf.is_empty() { "q".to_string() } else { suf[..suf.len() - 1].to_string() }] {
